@@ -252,6 +252,19 @@ def pool_items(quick):
         add("num-intfloat-key", T(floatof(n), S("k")), q)
         add("num-intfloat-key", T(I(-n)), False)
         add("num-intfloat-key", T(floatof(-n)), False)
+    # the same small integers reached through big intermediate values (every operator that can shrink a big operand):
+    # equal values must hash alike however they were computed
+    routes = [(-3, "((1 << 40) | (-3))", True), (-1, "((-(1 << 40)) | ((1 << 40) - 1))", True), (-7, "((-(1 << 40)) | (-7))", False),
+              (5, "(((1 << 70) + 5) & 255)", True), (5, "(((1 << 70) + 5) ^ (1 << 70))", True), (5, "((5 << 70) >> 70)", False),
+              (-3, "((1 << 70) - (1 << 70) - 3)", True), (1, "((1 << 70) // (1 << 70))", False), (3, "((1 << 70) % ((1 << 70) - 3))", True),
+              (-1, "((-(1 << 70)) // (1 << 70))", False), (-1, "(~(1 << 70) + (1 << 70))", True), (0, "((1 << 70) * 0)", True),
+              (0, "((1 << 70) & 1)", False), (-(1 << 31), "((-(1 << 62)) // (1 << 31))", True), ((1 << 31) - 1, "(((1 << 64) >> 33) - 1)", False),
+              (3, 'int("3")', False), (3, "int(3.0)", False), (-3, "(-(1 << 70) + ((1 << 70) - 3))", False),
+              (-3, "(((1 << 70) - 3) - (1 << 70))", False), (2, "(1 << 71) // (1 << 70)", False)]
+    for n, src, q in routes:
+        add("num-route", V("int", n, src=src if src.startswith("(") or src.startswith("int") else "(" + src + ")"), q)
+    for n in (-7, -3):
+        add("num-small", I(n), n == -3)
     add("num-nonfinite", F(INF), True); add("num-nonfinite", F(-INF), True)
     add("num-nonfinite", V("float", NAN), True)
     add("num-nonfinite", V("float", NAN, src='(-float("nan"))'), True)     # another NaN (sign bit)
